@@ -85,7 +85,16 @@ class UnitOfWork(object):
             return
 
         if not self.current_transaction:
-            return
+            # The flush itself may write rows of versioned classes although
+            # no versioned object was modified when it started (deleting a
+            # non versioned parent nulls the foreign key of its versioned
+            # children). Those changes are versioned like any other.
+            if not any(
+                not operation.processed
+                for operation in self.operations.objects.values()
+            ):
+                return
+            self.create_transaction(session)
 
         if not self.version_session:
             self.version_session = sa.orm.session.Session(
